@@ -1,7 +1,9 @@
 package props
 
 import (
+	"crypto/x509"
 	"fmt"
+	"io"
 	"math/rand"
 	"net"
 	"reflect"
@@ -438,6 +440,33 @@ func RunCase(t Target, gc GridCase, sni string, extra func(cfg *tls.Config), opt
 	if extra != nil {
 		extra(ccfg)
 	}
+	flavor := ""
+	if extra == nil && gc.Client == nil && !NoAutoStyle {
+		// client Config knobs that must not change the outcome of a handshake, varied
+		// deterministically with the case identity
+		switch fnv32("flavor|"+t.Name+"|"+gc.Dim+"|"+gc.Val+"|"+sni) % 8 {
+		case 1:
+			ccfg.SessionTicketsDisabled = true
+			flavor = "SessionTicketsDisabled"
+		case 2:
+			ccfg.NextProtos = []string{"h2", "http/1.1"}
+			flavor = "NextProtos"
+		case 3:
+			ccfg.DynamicRecordSizingDisabled = true
+			flavor = "DynamicRecordSizingDisabled"
+		case 4:
+			ccfg.KeyLogWriter = io.Discard
+			flavor = "KeyLogWriter"
+		case 5:
+			ccfg.VerifyConnection = func(tls.ConnectionState) error { return nil }
+			ccfg.VerifyPeerCertificate = func([][]byte, [][]*x509.Certificate) error { return nil }
+			flavor = "VerifyCallbacks"
+		case 6:
+			ccfg.ClientSessionCache = tls.NewLRUClientSessionCache(2)
+			ccfg.PreferSkipResumptionOnNilExtension = true
+			flavor = "EmptySessionCache"
+		}
+	}
 	// Unless the caller fixed how the connection is driven, vary it deterministically with
 	// the case identity: every style is documented-legal, so each property must hold for all.
 	if t.Style == StylePlain && t.Edit == nil && !t.InspectFirst && !NoAutoStyle {
@@ -457,6 +486,9 @@ func RunCase(t Target, gc GridCase, sni string, extra func(cfg *tls.Config), opt
 	}
 	h := peer.Run(ccfg, t.ClientID(), gc.Server, opts)
 	h.Note = "client driven in style " + StyleName(t.Style)
+	if flavor != "" {
+		h.Note += ", client Config flavour " + flavor
+	}
 	return h
 }
 
